@@ -3,7 +3,7 @@ CONSTANTS
   N = 3
   Silent = {2}
   Peers = {1, 2}
-  MaxDup = 1
+  MaxDup = 0
   MaxForeign = 1
   Faults = {}
   MayCancel = FALSE
